@@ -566,6 +566,7 @@ class M_raise_exc(MgrContract):
     returns = 'none'
     props = ('C02', 'C05', 'C13')
     doc = 'notifies RUN, then raises exactly the given exception, with no yield in between'
+    never_returns = True
 
     def setup(self, it):
         st = it.st
